@@ -63,8 +63,9 @@ func keyForPrefixedStringMapsAsKey(buf []byte, prefix string, maps ...map[string
 	}
 
 	var lastKey string // last key written to the buffer
-	for _, k := range keys {
-		if len(lastKey) > 0 {
+	for i, k := range keys {
+		// n.b. Compare by position, not by length: the empty string is a key too.
+		if i > 0 {
 			if k == lastKey {
 				// Already wrote this key.
 				continue
